@@ -142,6 +142,13 @@ int main()
 			if(r) out = o=="\x01untouched" ? "flt valid" : "flt valid TOUCHED "+hex(o);
 			else out="flt filtered "+hex(o);
 		}
+		else if(v.size()==2 && v[0]=="dv") {
+			// unchecked decoder: only ever given input that starts with a well-formed sequence
+			std::string s=unhex(v[1]);
+			char const *b=s.data(),*p=b;
+			uint32_t c=btraits::decode_valid(p);
+			snprintf(buf,sizeof(buf),"dv %x:%ld",c,long(p-b)); out=buf;
+		}
 		else if(v.size()==2 && v[0]=="cmp") {
 			out=cppcms::encoding::is_ascii_compatible(unhex(v[1])) ? "cmp 1" : "cmp 0";
 		}
